@@ -137,7 +137,7 @@ func init() {
 			"compared with the reference normaliser; plus 42 non-URL strings (all ordered pairs among them and against the grid) for reflexivity/symmetry and list membership; non-trivial = pair of different presentations",
 		Assumptions: []string{"queries in one letter case (outside the stated domain otherwise)", "net/url parsing of the grid IRIs"},
 		Bound: func(tier string) string {
-			return "complete grid of 3564 IRIs: 12.7M ordered pairs x 2 scheme modes; confusable grid of ~1200 IRIs (letters that a careless case mapping identifies, paths differing in their last byte after multi-byte characters, each with and without a fragment, percent-encoded = and & in query keys and values, ids colliding under common 32-bit hashes); byte grid of ~240 IRIs (every printable ASCII character and DEL as a byte of the path and as a query value: all ordered pairs); host grid of 840 IRIs (IPv6 literals differing in address / case / port, explicit default ports, dot segments, query values ending in a slash): 706k ordered pairs x 2 modes; query grid of 242 IRIs (every sequence of <= 4 parameters over x=1,x=2,y=2): 58k ordered pairs x 2 modes; membership in lists of 2..65 members (equivalent member first/last) over a 384-IRI sub-grid; scale grid of 1008 long IRIs (paths ending 64/300/1100 bytes in, queries of 17/33 parameters): 1.0M ordered pairs x 2 modes; 42 strings x (42 + 3564) pairs (same in both tiers); families added after round 5: DESIGN.md 8.11"
+			return "complete grid of 3564 IRIs: 12.7M ordered pairs x 2 scheme modes; confusable grid of ~1200 IRIs (letters that a careless case mapping identifies, paths differing in their last byte after multi-byte characters, each with and without a fragment, percent-encoded = and & in query keys and values, ids colliding under common 32-bit hashes); byte grid of ~240 IRIs (every printable ASCII character and DEL as a byte of the path and as a query value: all ordered pairs); path grid of 780 IRIs (every path of <= 4 segments over a, b, .., ., empty): 608k ordered pairs x 2 modes; host grid of 1428 IRIs (ports at the edges of 8, 15 and 16 bits) (IPv6 literals differing in address / case / port, explicit default ports, dot segments, query values ending in a slash): 706k ordered pairs x 2 modes; query grid of 242 IRIs (every sequence of <= 4 parameters over x=1,x=2,y=2): 58k ordered pairs x 2 modes; membership in lists of 2..65 members (equivalent member first/last) over a 384-IRI sub-grid; scale grid of 1008 long IRIs (paths ending 64/300/1100 bytes in, queries of 17/33 parameters): 1.0M ordered pairs x 2 modes; 42 strings x (42 + 3564) pairs (same in both tiers); families added after round 5: DESIGN.md 8.11"
 		},
 		Run: c14Run,
 	})
@@ -270,7 +270,9 @@ func c14Lists(c *engine.Ctx) {
 func c14HostGrid() []c14IRI {
 	var out []c14IRI
 	for _, s := range []string{"http", "https"} {
-		for _, h := range []string{"[2001:db8::1]", "[2001:db8::2]", "[2001:DB8::1]", "[2001:db8::1]:8080", "[2001:db8::1]:9090", "[::1]", "[::2]", "e.com", "e.com:443", "e.com:80"} {
+		for _, h := range []string{"[2001:db8::1]", "[2001:db8::2]", "[2001:DB8::1]", "[2001:db8::1]:8080", "[2001:db8::1]:9090", "[::1]", "[::2]", "e.com", "e.com:443", "e.com:80",
+			// ports at the edges of 8, 15 and 16 bits (a port is a string of digits to the comparison, whatever its magnitude)
+			"e.com:1", "e.com:255", "e.com:256", "e.com:32767", "e.com:32768", "e.com:49152", "e.com:65535"} {
 			for _, p := range []string{"/a", "/a/", "/b/../a"} {
 				for _, q := range []string{"", "?x=1&y=2", "?y=2&x=1", "?dir=/", "?dir=", "?x=/a/", "?x=/a"} {
 					for _, f := range []string{"", "#f"} {
@@ -329,8 +331,30 @@ func c14ByteGrid() []c14IRI {
 	return out
 }
 
+// c14PathGrid: every path of at most 4 segments over {a, b, "..", ".", ""} (780 paths: dot segments after empty segments, above the
+// root, trailing and doubled slashes in every combination) on one host: equal exactly when they clean to the same path.
+func c14PathGrid() []c14IRI {
+	segs := []string{"a", "b", "..", ".", ""}
+	var out []c14IRI
+	var rec func(cur string, n int)
+	rec = func(cur string, n int) {
+		if n > 0 {
+			out = append(out, c14IRI{"https", "e.com", cur, "", ""})
+		}
+		if n == 4 {
+			return
+		}
+		for _, sg := range segs {
+			rec(cur+"/"+sg, n+1)
+		}
+	}
+	rec("", 0)
+	return out
+}
+
 func c14Run(c *engine.Ctx) {
 	c14RunGrid(c, c14ConfusableGrid(), "confusable-grid")
+	c14RunGrid(c, c14PathGrid(), "path-grid")
 	c14RunGrid(c, c14ByteGrid(), "byte-grid")
 	c14RunGrid(c, c14HostGrid(), "host-grid")
 	c14RunGrid(c, c14Grid(c.Quick()), "grid")
